@@ -101,6 +101,9 @@ pub fn draw_prebuf(g: &mut vcore::Gen) -> &'static str {
     PREBUF.with(|p| *p.borrow_mut() = b);
     label
 }
+thread_local! { pub static FIRST_SYNC: std::cell::Cell<bool> = const { std::cell::Cell::new(false) }; }
+pub fn take_first_sync() -> bool { FIRST_SYNC.with(|p| p.replace(false)) }
+pub fn set_first_sync(b: bool) { FIRST_SYNC.with(|p| p.set(b)) }
 pub fn take_prebuf() -> Option<Vec<u8>> { PREBUF.with(|p| p.borrow_mut().take()) }
 
 thread_local! {
@@ -119,3 +122,8 @@ thread_local! {
     /// `set_max_len` value for the AsyncReader of the next schedule run (None = the default).
     pub static READER_MAX: std::cell::Cell<Option<u32>> = const { std::cell::Cell::new(None) };
 }
+
+thread_local! { static SPONTANEOUS: std::cell::Cell<usize> = const { std::cell::Cell::new(0) }; }
+/// Drops granted at Pendings that the scripted transport did not cause (at most 3 per run, always taken first).
+pub fn reset_spontaneous() { SPONTANEOUS.with(|c| c.set(0)) }
+pub fn spontaneous_drop() -> bool { SPONTANEOUS.with(|c| { let n = c.get(); c.set(n + 1); n < 3 }) }
